@@ -155,6 +155,18 @@ Theorem payout_close_to_fair_share :
 Proof. exact payout_lemma. Qed.
 Print Assumptions payout_close_to_fair_share.
 
+(** Harvest frequency: two histories of a farmer with the same exact share (e.g. differing only in extra
+    harvests), both ending fully withdrawn, pay amounts that differ by less than the number of interactions. *)
+Corollary harvest_frequency_independent :
+  forall es1 es2 : list fev,
+    fvalid 0 es1 -> fvalid 0 es2 ->
+    let x1 := fold_left fstep es1 fzero in
+    let x2 := fold_left fstep es2 fzero in
+    a_l x1 = 0 -> a_l x2 = 0 -> a_fair x1 = a_fair x2 ->
+    - (a_n x1 * (P18 - 1)) <= (a_paid x1 - a_paid x2) * P18 <= a_n x2 * (P18 - 1).
+Proof. exact harvest_frequency_lemma. Qed.
+Print Assumptions harvest_frequency_independent.
+
 (** ... and an [Act] is exactly what the model's CaclRewards (hence stake / harvest / unstake) does for the
     rule at any position [i] of a pool: payment [pay_of], new debt [new_debt] (a missing debt counts as 0). *)
 Theorem cacl_rewards_is_act :
